@@ -135,8 +135,10 @@ impl Profile {
 				.require("rejected_commits", 50)
 				.require("rejected_kinds", 4)
 				.require("restarts", 3),
-			Profile::C09 => Spec::new("C09", "exploration", &format!("{} Keys are chosen through the zero-salt identity hash: > 64 keys per 64-entry index page (forcing repeated growth) and groups equal on all 50 index-visible bits; every key has a unique random tail (generator soundness rule, DESIGN 5/C09).", rule_common))
+			Profile::C09 => Spec::new("C09", "exploration", &format!("{} Keys are chosen through the zero-salt identity hash: > 64 keys per 64-entry index page (forcing repeated growth) and groups equal on all 50 index-visible bits; every key has a unique random tail (generator soundness rule, DESIGN 5/C09). One transaction in two of three histories writes the whole hot-page pool at once (one record grows the index by several steps). Every 16th case is the bulk scenario: 8300-11000 keys over a few hundred index pages of uneven fill plus one overflowing page, migrated batch by batch (more than one 8192-entry batch, the limit falling inside a page) with removals / replacements between the batches, restarts in the middle, a read of EVERY key after every step and a final iteration count.", rule_common))
 				.require("index_growths", 2)
+				.require("bulk_multi_batch_migrations", 2)
+				.require("growth_multi_step_records", 1)
 				.require("reindex_batches", 2)
 				.require("restart_during_reindex", 1)
 				.require("collision_group_reads", 50)
@@ -225,7 +227,13 @@ impl Profile {
 				if rng.chance(1, 4) {
 					cols.push(col(false, false, false, false, comp(rng)));
 				}
-				DbCfg::new(cols)
+				let mut cfg = DbCfg::new(cols);
+				// half of the uniform-key variants hash by identity: the counted column then lives
+				// in one index page and the index grows (several tables pending at once)
+				if !btree && (v / 2) % 2 == 1 && (v / 12) % 2 == 1 {
+					cfg.salt = Some([0u8; 32]);
+				}
+				cfg
 			},
 			Profile::C08 => {
 				let v = variant as usize;
